@@ -17,7 +17,7 @@ CLAIMS = {
  "C04": dict(
    technique="static analysis: wire-layout extraction from go/ssa def-use chains (encoder append chains vs decoder field stores) compared per command type",
    text="For each of the 115 command structures the encoder's and the decoder's wire layouts are extracted from the code and compared atom by atom (same fields, order, width, byte order, nested type), the decoder's offsets are checked to be the running sum of the widths before them, every declared wire field must appear once in each direction in declaration order with the width of its type, AndX commands must consume the AndX block first, and a nested decoder must be handed a window at least as large as what it consumes. These are structural necessary conditions of the round trip that hold for every field value at once; value-level consistency of length fields and the inverse-ness of nested types are not decided here.",
-   note=TRUST + " Additional for C04: encoding/binary accessors have their documented layouts; Parameters packs bytes into words and back symmetrically (C06); only the idioms listed in DESIGN.md §3 E2 are recognised — an unrecognised idiom is reported as undecided, never passed.",
+   note=TRUST + " Additional for C04: encoding/binary accessors have their documented layouts; Parameters packs bytes into words and back symmetrically (C06); only the idioms listed in DESIGN.md §3 E2 are recognised — an idiom the extractor cannot read is reported as NOT DECIDED (see the policy at the end of the claim), a mismatch in a fully read layout as a violation.",
    design="§3 E2, §4 C04"),
  "C11": dict(
    technique="static analysis: exact bit-lane provenance of the 4-byte session header over go/ssa, dominating-guard refusal proof (E1), and I/O-discipline rules on Send/Receive",
@@ -148,9 +148,28 @@ EXT = {
  "C18": ("; per-iteration allocation of request objects, connection-registry key provenance, and must-execute of close() inside Once bodies", " Added: no object allocated outside a goroutine-spawning loop and written inside it reaches a go statement of that loop; a connection registry key is the connection or derives from RemoteAddr(); a Once body that closes a channel closes it on every path."),
  "C20": ("; no signed view of an unsigned difference in network/ip, forbidden dependence of IsInSubnet on the host's own prefix, regexp/syntax case analysis of constant patterns", " Added: no function of network/ip reinterprets an unsigned difference as signed; IsInSubnet does not depend on the host operand's prefix length; every constant pattern ParseLMNTHashes matches against admits both letter cases."),
 }
+ERRP = "in the decoders of this property the non-nil arm of every test of an in-module callee's error ends in returns that carry a non-nil error (a decode error is never swallowed into a success)"
+IDENT = "a struct field filled from an integer wire read holds exactly that read on every path (no later store can overwrite it; composite-literal temporaries are the variable they initialise; stores in mutually exclusive branches are fine)"
+EXT2 = {
+ "C03": ("; error-propagation rule on the CFG", " Added: " + ERRP + "."),
+ "C04": ("; error-propagation, decoded-field identity and long-form word-count rules", " Added: " + ERRP + "; " + IDENT + "; a decoder that recognises the long form of a command by WordCount == K uses the K that the encoder's long form has (sum of the constant widths of the parameter layout over 2)."),
+ "C06": ("; error-propagation, decoded-field identity, one-encoding-per-format, terminator-on-every-path and E1 length-slot rules", " Added: " + ERRP + "; " + IDENT + "; every buffer format of SMB_STRING is encoded by one layout (no data-dependent second layout) and a NUL terminator that follows the payload is appended on every success path after it; where the decoder reads a payload of exactly F bytes, the encoder's F slot provably holds len(payload) (reported only when the slot holds the incoming field untouched)."),
+ "C09": ("; error-propagation rule; exact-fit also on start guards", " Added: " + ERRP + "; a guard on the START of a variable-width read admits an empty field at the very end of the input."),
+ "C10": ("; error-propagation rule", " Added: " + ERRP + "."),
+ "C01": ("; symbolic evaluation of the composition (normal-form terms) as a second opinion", " Where a composition recogniser does not match the spelling, the anchor is executed symbolically (control flow, counters and lengths concrete; data as normal-form terms over cat/hash/des/LE/BE/utf16/upper…, helpers, closures and library contracts entered) and the resulting term is compared with the specification term of the group."),
+ "C02": ("; symbolic evaluation of the composition (normal-form terms) as a second opinion", " Where a composition recogniser does not match the spelling, the anchor is executed symbolically and the resulting term (DESL chain, HMAC-MD5 proof over challenge‖blob, blob layout, hashcat line) is compared with the specification term of the group."),
+ "C12": ("; symbolic evaluation of the GPP composition as a second opinion", " Where the GPP recogniser does not match the spelling, both GPP sides are executed symbolically and compared with AES-256-CBC under the published key and a zero IV."),
+ "C14": ("; format-operand data-flow rule", " Added: the format operand of every fmt formatting call in the DNWithBinary printers is built from constants and %-free producers only (a free-form string is an operand, never part of the format)."),
+}
+POLICY = " COMPLETENESS BEFORE VERDICT: a violation is reported only for a construct positively observed in a completely extracted flow; a shape the method cannot read is reported as NOT DECIDED (a discharged obligation with a note, counted in coverage.not_decided, floors credited), so behaviour-preserving rewrites into unread shapes are silent and breaking changes hidden in such shapes are missed; a missing entry point of the property, a type-check failure or a panic of the checker still fails the check."
 for _i, (_t, _x) in EXT.items():
     CLAIMS[_i]["technique"] += _t
     CLAIMS[_i]["text"] += _x
+for _i, (_t, _x) in EXT2.items():
+    CLAIMS[_i]["technique"] += _t
+    CLAIMS[_i]["text"] += _x
+for _i in CLAIMS:
+    CLAIMS[_i]["text"] += POLICY
 
 NA = {}
 na_path = os.path.join(V, "tools", "not_applicable.json")
